@@ -81,6 +81,7 @@ class StateGraph(Observer):
         super().__init__()
         self.last = {}       # (nick, incarnation) -> last published state
         self.entered = {}    # nick -> set of states ever published (any incarnation), with first global order
+        self.history = {}    # nick -> [(t_us, state)] every published change
         self.probes = {}
 
     def on_boot(self, sim, inst):
@@ -116,7 +117,28 @@ class StateGraph(Observer):
                 if new not in self.entered.get(m_nick, ()):
                     self.violate('slave-before-master', {'inst': inst.nick, 'state': new, 'master': m_nick},
                                  'slave-before-master:%s%s' % (new, suffix))
+                else:
+                    # ... and in its current or previous term: the Master has published `new` since the election before
+                    # its last one (one term of slack: the Slave follows what it last RECEIVED from the Master, which may
+                    # have gone back to ELECTION since)
+                    hist = self.history.get(m_nick, [])
+                    cls = ('OFF', 'SYNCHRONIZATION', 'ELECTION')
+                    elections = [t for k, (t, st) in enumerate(hist)
+                                 if st in cls and (k == 0 or hist[k - 1][1] not in cls)]
+                    since = elections[-2] if len(elections) >= 2 else -1
+                    if not any(st == new and t >= since for t, st in hist):
+                        # recorded finding: the Slave follows the Master state it has STORED; when the publications of the
+                        # Master did not reach it (sender saw it STOPPED, one-way failures on a slow network) the stored
+                        # state is the one of an older term
+                        stored = inst.supvisors.state_modes.master_state
+                        stored = stored.name if stored is not None else None
+                        true_now = hist[-1][1] if hist else None
+                        stale = ':stale-view-of-master-state' if stored != true_now else ''
+                        self.violate('slave-before-master', {'inst': inst.nick, 'state': new, 'master': m_nick,
+                                                             'master_history': hist[-6:], 'stored_master_state': stored},
+                                     'slave-before-master-in-term:%s%s%s' % (new, suffix, stale))
         self.entered.setdefault(inst.nick, set()).add(new)
+        self.history.setdefault(inst.nick, []).append((sim.now_us, new))
 
     def _auto_shutdown(self, inst):
         from oracles.cluster import effective_options
